@@ -1169,6 +1169,7 @@ def check_C05(chk):
     c05a(chk)
     c05c(chk)
     c05d(chk)
+    index_sum_visits_every_axis(chk, "C05.d")
     # shared clauses: the fill value reaches the reader of the output as it is (the text writer prints the stored value: C07.c) and an output
     # file holds nothing but this output (C07.g), else folding the folded file differs from folding once
     import rules_io as RIO_
@@ -1381,6 +1382,29 @@ def c05c(chk):
         why = "%s: starts at 0=%s, over shape().iter()=%s, new value = acc + (n - 1)=%s, every axis=%s" % (it.describe(), init0, shape_ok, form, every)
     chk.ob("C05.c", "from_spectrum/T=sum(len-1)-over-all-axes", ok, f.loc(), "the maximum total count adds (length - 1) for every axis, starting from 0 (%s)" % why)
     chk.c05 = {"mid": mid, "diag": diag, "pass": ps}
+
+
+def index_sum_visits_every_axis(chk, rule):
+    """Shape::index_sum_from_flat_unchecked decomposes the flat position axis by axis: its iteration over the shape leaves no axis out (an axis
+    of length one adds nothing to the sum, but stopping at it drops every later axis too)"""
+    prog = chk.prog
+    f = chk.fn(A + "shape::Shape::index_sum_from_flat_unchecked")
+    if f is None:
+        return
+    its = [it for h in [f] + prog.closures_of(f.path) for it in IT.iterations(prog, h)]
+    ok = False
+    why = "no iteration over the shape found"
+    for it in its:
+        names = [n for n in IT.chain_names(it.chain()) if n not in ("deref", "as_slice", "as_ref")]
+        src = it.chain()[-1][1]
+        over_self = src is not None and src[0] == 1
+        plain = sorted(names) in (["iter"], ["copied", "iter"], ["cloned", "iter"], ["enumerate", "iter"], ["iter", "rev"])
+        every = it.runs_for_every_element()
+        why = "%s: adaptors %s, over self=%s, every element visited=%s" % (it.describe(), names, over_self, every)
+        if over_self and plain and every:
+            ok = True
+            break
+    chk.ob(rule, "index_sum_from_flat_unchecked/every-axis-visited", ok, f.loc(), why)
 
 
 def c05d(chk):
